@@ -126,7 +126,7 @@ class AbstractFileSystem(DictType):
         fname = os.path.join(self.fdir, _key)
         lock = FileLock(f"{fname}.lock")
         with lock:
-            with open(fname, "w") as fp:
+            with open(fname, "w", newline="") as fp:
                 fp.write(self.value_conv.serialize(value))
 
         self.storage[_key] = value
@@ -209,7 +209,7 @@ class AbstractFileSystem(DictType):
             try:
                 lock = FileLock(f"{fname}.lock")
                 with lock:
-                    info = open(fname, "r").read()
+                    info = open(fname, "r", newline="").read()
                 lock.release()
                 return self.value_conv.deserialize(info)
             except Exception as err:
